@@ -157,7 +157,7 @@ def _work(chunk):
             out["violations"].append(({"nbars": nbars, "L": L, "d": d, "space": space, "extras": extras, "seq": []},
                                       "building the environment raised %r" % (ex,), ("build", space, d)))
             continue
-        for seq in itertools.product(range(3), repeat=nbars - 1):
+        for si, seq in enumerate(itertools.product(range(3), repeat=nbars - 1)):
             msgs = run_sequence(env, sink, evs, G, L, d, space, seq)
             out["evaluations"] += 1
             tr = env.broker.track_record
@@ -167,8 +167,13 @@ def _work(chunk):
             if d > 0 or extras:
                 out["nontrivial"].add(sig)
             if msgs:
-                out["violations"].append(({"nbars": nbars, "L": L, "d": d, "space": space, "extras": extras, "seq": list(seq)},
-                                          "; ".join(msgs[:3]), (msgs[0].split(" ")[0], space, d, L)))
+                # minimal replay: the sequence alone on a fresh environment if that reproduces it,
+                # otherwise all earlier episodes on the same environment are part of the counterexample
+                alone = replay({"nbars": nbars, "L": L, "d": d, "space": space, "extras": extras, "seq": list(seq), "prior": 0})
+                prior = 0 if alone else si
+                note = "" if prior == 0 else " (only after %d earlier episodes on the same environment)" % prior
+                out["violations"].append(({"nbars": nbars, "L": L, "d": d, "space": space, "extras": extras, "seq": list(seq), "prior": prior},
+                                          "; ".join(msgs[:3]) + note, (msgs[0].split(" ")[0], space, d, L, prior > 0)))
                 if len(out["violations"]) > 50:
                     return out
     return out
@@ -206,6 +211,11 @@ def replay(case, **kw):
         return ["building the environment raised %r" % (ex,)]
     if not case["seq"]:
         return []
+    n = len(case["seq"])
+    for si, seq in enumerate(itertools.product(range(3), repeat=n)):
+        if si >= case.get("prior", 0):
+            break
+        run_sequence(env, sink, evs, G, case["L"], case["d"], case["space"], seq)
     return run_sequence(env, sink, evs, G, case["L"], case["d"], case["space"], tuple(case["seq"]))
 
 
